@@ -731,7 +731,13 @@ func init() {
 		return o
 	})
 	runners["C04"] = histRunner("C04", "c04_run", false, 250, 3000, inbound)
-	runners["C05"] = histRunner("C05", "c05_run_full", false, 250, 3000, outbound)
+	runners["C05"] = histRunner("C05", "c05_run_full", false, 250, 3000, func(r *rng, i int) seqOpts {
+		o := outbound(r, i)
+		if r.chance(1, 8) {
+			o.max1, o.max2 = pick(r, -1, 16384, 20000, 3), pick(r, -1, 16384, 20000, 1<<16) // cut down to the identifier space
+		}
+		return o
+	})
 	runners["C07"] = histRunner("C07", "c07_run", false, 250, 3000, inbound)
 	runners["C10"] = histRunner("C10", "c10_run", false, 250, 3000, general)
 	runners["C11"] = histRunner("C11", "c11_run", false, 250, 3000, func(r *rng, i int) seqOpts { o := general(r, i); o.hostile = r.chance(1, 3); return o })
